@@ -2124,9 +2124,12 @@ class unyt_array(np.ndarray):
                     out.units = Unit("", registry=self.units.registry)
             elif isinstance(out, tuple):
                 for o, oa in zip(out, out_arr):
-                    if o is None:
+                    if not isinstance(o, unyt_array):
                         continue
-                    o.units = oa.units
+                    # frexp returns bare arrays
+                    o.units = getattr(
+                        oa, "units", Unit("", registry=self.units.registry)
+                    )
         if mul == 1:
             return out_arr
         return mul * out_arr
